@@ -795,124 +795,205 @@ def defaults_stream(ctx, st, record, dflt):
             ctx.count('defaults:%s:%s' % (cls, kind.split(':')[0]), len(tests))
 
 
-def attached_play(spec, ops):
-    """spec: list of (cls, args) for the profiles; ops: ('attach', i) | ('set', i, prop, value). Returns None or
-    (index of the first op after which the attached geometry is wrong, description)"""
+def attached_play(spec, init, ops):
+    """Several live `Laser` nodes in one world, each fully configured (plasma, spectrum, one Thomson model).
+    spec: list of (cls, args) for the profiles; init: profile index initially attached to laser i;
+    ops: ('attach', laser, profile) | ('set', profile, prop, value) | ('importance', laser, value).
+    After the set-up and after every op, for EVERY laser: the primitives of get_geometry() are children of that laser
+    only, are objects distinct from every other laser's segments, tile [0, L] at radius r of the profile that laser
+    currently holds, the laser has no other cylinder children, every segment carries a LaserMaterial with the laser's
+    current importance and integrator, and segments + material kind equal those of a laser freshly built around a
+    fresh profile with the same reported parameters.
+    Returns None or (index of the first op after which this fails, failure class, description)."""
     from raysect.optical import World
     from raysect.primitive import Cylinder
     from cherab.core import Plasma
     from cherab.core.laser.node import Laser
+    from cherab.core.laser.material import LaserMaterial
     from cherab.core.model.laser.model import SeldenMatobaThomsonSpectrum
     C = classes()
 
-    world = World()
-    laser = Laser(parent=world)
-    laser.laser_spectrum = C['ConstantSpectrum'](1059.0, 1061.0, 3)
-    laser.plasma = Plasma(parent=world)
-    profs = [construct(c, a) for c, a in spec]
-    cur = 0
-    laser.laser_profile = profs[0]
-    laser.models = [SeldenMatobaThomsonSpectrum()]
-    for k, op in enumerate([None] + list(ops)):
-        if op is not None:
-            if op[0] == 'attach':
-                laser.laser_profile = profs[op[1]]
-                cur = op[1]
-            else:
-                call(setattr, profs[op[1]], op[2], op[3])
-        prof = profs[cur]
-        segs = []
+    def configured(world, prof):
+        laser = Laser(parent=world)
+        laser.laser_spectrum = C['ConstantSpectrum'](1059.0, 1061.0, 3)
+        laser.plasma = Plasma(parent=world)
+        laser.laser_profile = prof
+        laser.models = [SeldenMatobaThomsonSpectrum()]
+        return laser
+
+    def segs_of(laser):
+        out = []
         for g in laser.get_geometry():
             t = g.transform
             pure = all(t[i, j] == (1.0 if i == j else 0.0) for i in range(4) for j in range(4) if (i, j) != (2, 3))
-            segs.append((float(t[2, 3]), float(g.height), float(g.radius), pure))
-        why = tiling_violation(segs, float(prof.laser_radius), float(prof.laser_length))
-        if why is None and any(g.parent is not laser for g in laser.get_geometry()):
-            why = 'a segment of get_geometry() is not a child of the laser'
-        if why is None:
-            kids = [c for c in laser.children if isinstance(c, Cylinder)]
-            if len(kids) != len(segs):
-                why = 'the laser has %d cylinder children but get_geometry() lists %d' % (len(kids), len(segs))
-        if why is not None:
-            return k - 1, 'current profile %s(laser_length=%r, laser_radius=%r): %s' % (
-                type(prof).__name__, prof.laser_length, prof.laser_radius, why)
+            out.append((float(t[2, 3]), float(g.height), float(g.radius), pure))
+        return out
+
+    world = World()
+    profs = [construct(c, a) for c, a in spec]
+    cur = list(init)
+    lasers = [configured(world, profs[i]) for i in cur]
+    for k, op in enumerate([None] + list(ops)):
+        if op is not None:
+            if op[0] == 'attach':
+                lasers[op[1]].laser_profile = profs[op[2]]
+                cur[op[1]] = op[2]
+            elif op[0] == 'importance':
+                lasers[op[1]].importance = op[2]
+            else:
+                call(setattr, profs[op[1]], op[2], op[3])
+        seen = {}
+        for li, laser in enumerate(lasers):
+            prof = profs[cur[li]]
+            geom = laser.get_geometry()
+            who = 'laser %d holding %s(laser_length=%r, laser_radius=%r)' % (li, type(prof).__name__, prof.laser_length, prof.laser_radius)
+            for g in geom:
+                if id(g) in seen:
+                    return k - 1, 'segments-shared-between-lasers', '%s: a segment object is also listed by laser %d' % (who, seen[id(g)])
+                seen[id(g)] = li
+            if any(g.parent is not laser for g in geom):
+                return k - 1, 'segments-not-children-of-their-laser', '%s: a segment of get_geometry() has another parent' % who
+            segs = segs_of(laser)
+            why = tiling_violation(segs, float(prof.laser_radius), float(prof.laser_length))
+            if why is None:
+                kids = [c for c in laser.children if isinstance(c, Cylinder)]
+                if len(kids) != len(segs):
+                    why = 'the laser has %d cylinder children but get_geometry() lists %d' % (len(kids), len(segs))
+            if why is not None:
+                return k - 1, 'segments-do-not-tile-current-profile', '%s: %s' % (who, why)
+            for g in geom:
+                m = g.material
+                if not isinstance(m, LaserMaterial):
+                    return k - 1, 'segment-material-not-LaserMaterial', '%s: a segment carries %s, so the laser no longer scatters' % (who, type(m).__name__)
+                if m.importance != laser.importance or m.integrator is not laser.integrator:
+                    return k - 1, 'segment-material-stale-settings', '%s: material importance %r / integrator differ from the laser (%r)' % (who, m.importance, laser.importance)
+            # a laser freshly built around a fresh profile with the same reported parameters
+            st_, fp = call(construct, type(prof).__name__, {p_: float(getattr(prof, p_)) for p_ in PARAMS[type(prof).__name__]})
+            if st_ == 'ok':
+                fl = configured(World(), fp)
+                fs_ = segs_of(fl)
+                if len(fs_) != len(segs) or any(not close(list(x[:3]), list(y[:3]), 1e-13, 0.0) for x, y in zip(sorted(segs), sorted(fs_))):
+                    return k - 1, 'segments-differ-from-fresh-laser', '%s: %d segments, a freshly built laser has %d' % (who, len(segs), len(fs_))
+                if sorted(type(g.material).__name__ for g in geom) != sorted(type(g.material).__name__ for g in fl.get_geometry()):
+                    return k - 1, 'segment-material-not-LaserMaterial', '%s: material kinds differ from a freshly built laser' % who
     return None
 
 
-
 def attached_stream(ctx):
-    """S: the geometry clause for a profile *attached to a Laser node* (plasma, spectrum, one Thomson model): after
-    any interleaving of profile setters and `laser.laser_profile = same / other profile`, the primitives of
-    `laser.get_geometry()` tile [0, laser_length] at laser_radius of the profile the laser currently holds, and the
-    laser has no other cylinder children."""
+    """S: the geometry clause for profiles *attached to Laser nodes*: one to three live lasers in one world, profiles
+    shared between lasers / distinct with equal parameters / different; profile setters interleaved with
+    (re)assignments `laser.laser_profile = same / other / shared profile` and importance changes."""
     rng = ctx.rng
-    play = attached_play
+    import itertools
 
-    def kind(op, cur):
-        if op[0] == 'attach':
-            return 'attach-same' if op[1] == cur else 'attach-other'
-        return 'set(%s)%s' % (op[2], '' if op[1] == cur else '@detached')
-
-    def kinds(ops):
-        cur, out = 0, []
+    def kinds(init, ops):
+        cur, out = list(init), []
         for op in ops:
-            out.append(kind(op, cur))
             if op[0] == 'attach':
-                cur = op[1]
+                k_ = 'attach-same' if cur[op[1]] == op[2] else ('attach-shared' if op[2] in cur else 'attach-other')
+                cur[op[1]] = op[2]
+            elif op[0] == 'importance':
+                k_ = 'importance'
+            else:
+                n_ = cur.count(op[1])
+                k_ = 'set(%s)%s' % ('geometry' if op[2] in ('laser_length', 'laser_radius') else op[2],
+                                    '@detached' if n_ == 0 else ('@shared' if n_ > 1 else ''))
+            out.append(k_)
         return out
 
-    def report(spec, ops):
-        bad = play(spec, ops)
+    reported = set()
+
+    def report(spec, init, ops):
+        bad = attached_play(spec, init, ops)
         if bad is None:
             return
+        if bad[1] in reported:           # one (the smallest: plans are enumerated by size) failing input per failure class
+            ctx.count('attached:further-failures:' + bad[1])
+            return
+        reported.add(bad[1])
         ops = list(ops[:bad[0] + 1])
         changed = True
-        while changed:                       # drop operations that are not needed for the failure
+        while changed:                       # drop operations that are not needed for the same failure class
             changed = False
             for i in range(len(ops) - 1, -1, -1):
                 trial = ops[:i] + ops[i + 1:]
-                if play(spec, trial) is not None:
+                b2 = attached_play(spec, init, trial)
+                if b2 is not None and b2[1] == bad[1]:
                     ops, changed = trial, True
-        bad = play(spec, ops)
-        sk = [k_.replace('set(laser_radius)', 'set(geometry)').replace('set(laser_length)', 'set(geometry)') for k_ in kinds(ops)][-2:]
-        ctx.fail('C18:Laser:attached(%s)->segments-do-not-tile-current-profile' % '>'.join(sk),
-                 'profiles %r, operations %r: %s' % ([c for c, _ in spec], ops, bad[1]),
-                 dict(kind='attached', spec=[[c, a] for c, a in spec], ops=[list(o) for o in ops]))
+        bad = attached_play(spec, init, ops)
+        shared = 'shared-profile' if len(set(init)) < len(init) else ('equal-parameter-profiles' if any(
+            spec[i] == spec[j] for i in init for j in init if i != j) else 'different-profiles')
+        setup = '%d-lasers:%s' % (len(init), shared) if len(init) > 1 else '1-laser'
+        ctx.fail('C18:Laser:attached[%s](%s)->%s' % (setup, '>'.join(kinds(init, ops)[-2:]), bad[1]),
+                 'profiles %r initially attached %r, operations %r: %s' % ([c for c, _ in spec], init, ops, bad[2]),
+                 dict(kind='attached', spec=[[c, a] for c, a in spec], init=list(init), ops=[list(o) for o in ops]))
 
-    def rnd_set(i, cls):
-        p = rng.choice(['laser_length', 'laser_length', 'laser_radius', 'laser_radius'] + PARAMS[cls])
-        return ('set', i, p, gen_value(rng, cls, p))
-    import itertools
-    # every sequence of up to 3 (quick) / 4 (thorough) operation kinds, then random longer ones
-    alphabet = ['attach-same', 'attach-other', 'set-length', 'set-radius', 'set-length-detached']
-    seqs = [q for n in range(1, 4 if ctx.tier == 'quick' else 5) for q in itertools.product(alphabet, repeat=n)]
-    for q in seqs:
-        spec = [(c, gen_args(rng, c)) for c in (rng.choice(PROFILES), rng.choice(PROFILES))]
-        cur, ops = 0, []
-        for a in q:
-            if a == 'attach-same':
-                ops.append(('attach', cur))
-            elif a == 'attach-other':
-                cur = 1 - cur
-                ops.append(('attach', cur))
-            elif a == 'set-length':
-                ops.append(('set', cur, 'laser_length', gen_value(rng, spec[cur][0], 'laser_length')))
-            elif a == 'set-radius':
-                ops.append(('set', cur, 'laser_radius', gen_value(rng, spec[cur][0], 'laser_radius')))
-            else:
-                ops.append(('set', 1 - cur, 'laser_length', gen_value(rng, spec[1 - cur][0], 'laser_length')))
-        report(spec, ops)
-        ctx.case(key=('attached',) + q, sample=dict(profiles=[c for c, _ in spec], ops=ops) if rng.random() < 0.02 else None)
-    ctx.count('attached:enumerated', len(seqs))
-    for _ in range(ctx.n(60, 1500)):
-        n = rng.randint(2, 3)
-        spec = [(c, gen_args(rng, c)) for c in (rng.choice(PROFILES) for _ in range(n))]
+    def make_spec():
+        """p0, p1 = distinct object with the parameters of p0, p2 = another class / other parameters"""
+        c0 = rng.choice(PROFILES)
+        a0 = gen_args(rng, c0)
+        c2 = rng.choice(PROFILES)
+        return [(c0, a0), (c0, dict(a0)), (c2, gen_args(rng, c2))]
+
+    # direct calls: two generate_geometry() / generate_segmented_cylinder() calls return distinct primitive objects
+    from cherab.core.model.laser.profile import generate_segmented_cylinder
+    for _ in range(ctx.n(20, 200)):
+        c = rng.choice(PROFILES)
+        a = gen_args(rng, c)
+        pr, pr2 = construct(c, a), construct(c, dict(a))
+        g1, g2, g3 = pr.generate_geometry(), pr.generate_geometry(), pr2.generate_geometry()
+        h1, h2 = generate_segmented_cylinder(a['laser_radius'], a['laser_length']), generate_segmented_cylinder(a['laser_radius'], a['laser_length'])
+        ids = [id(x) for grp in (g1, g2, g3, h1, h2) for x in grp]
+        if len(set(ids)) != len(ids):
+            ctx.fail('C18:generate_geometry:returns-the-same-primitive-objects-twice',
+                     '%s(laser_radius=%r, laser_length=%r): repeated generate_geometry()/generate_segmented_cylinder() calls return the same Cylinder '
+                     'objects, so a second Laser re-parents the first one\'s segments' % (c, a['laser_radius'], a['laser_length']),
+                     dict(kind='geometry_identity', cls=c, args=a))
+        ctx.count('attached:direct-identity')
+
+    # one laser: every sequence of up to 3 / 4 concrete operations
+    alpha1 = [('attach', 0, 0), ('attach', 0, 2), ('set', 0, 'laser_length'), ('set', 0, 'laser_radius'), ('set', 2, 'laser_length'),
+              ('importance', 0)]
+    # two lasers: initial (p0, p1 equal parameters) and (p0, p0 shared)
+    alpha2 = [('attach', l, p_) for l in (0, 1) for p_ in (0, 1, 2)] + [('set', 0, 'laser_length'), ('set', 1, 'laser_length'),
+              ('set', 2, 'laser_length'), ('set', 0, 'laser_radius'), ('importance', 1)]
+
+    def concrete(spec, o):
+        if o[0] == 'set':
+            return ('set', o[1], o[2], gen_value(rng, spec[o[1]][0], o[2]))
+        if o[0] == 'importance':
+            return ('importance', o[1], rng.choice([0.0, 1.0, 2.5, 10.0]))
+        return o
+    n1 = 3 if ctx.tier == 'quick' else 4
+    n2 = 2 if ctx.tier == 'quick' else 3
+    plans = [((0,), q) for n in range(0, n1 + 1) for q in itertools.product(alpha1, repeat=n)]
+    for init in ((0, 1), (0, 0), (0, 2)):
+        plans += [(init, q) for n in range(0, n2 + 1) for q in itertools.product(alpha2, repeat=n)]
+    plans += [((0, 0, 1), q) for n in range(0, 2) for q in itertools.product(alpha2, repeat=n)]
+    for init, q in plans:
+        spec = make_spec()
+        ops = [concrete(spec, o) for o in q]
+        report(spec, init, ops)
+        ctx.case(key=('attached', init) + tuple(o[:3] for o in q),
+                 sample=dict(profiles=[c for c, _ in spec], init=init, ops=ops) if rng.random() < 0.01 else None)
+    ctx.count('attached:enumerated', len(plans))
+    for _ in range(ctx.n(60, 1200)):
+        spec = make_spec()
+        nl = rng.choice([1, 2, 2, 3])
+        init = tuple(rng.randrange(3) for _ in range(nl))
         ops = []
         for _ in range(rng.randint(4, 10)):
-            i = rng.randrange(n)
-            ops.append(('attach', i) if rng.random() < 0.4 else rnd_set(i, spec[i][0]))
-        report(spec, ops)
-        ctx.case(key=('attached-random', tuple(kinds(ops))))
+            u = rng.random()
+            i = rng.randrange(3)
+            if u < 0.4:
+                ops.append(('attach', rng.randrange(nl), i))
+            elif u < 0.5:
+                ops.append(('importance', rng.randrange(nl), rng.choice([0.0, 1.0, 3.0])))
+            else:
+                pr = rng.choice(['laser_length', 'laser_length', 'laser_radius', 'laser_radius'] + PARAMS[spec[i][0]])
+                ops.append(('set', i, pr, gen_value(rng, spec[i][0], pr)))
+        report(spec, init, ops)
+        ctx.case(key=('attached-random', init, tuple(kinds(init, ops))))
         ctx.count('attached:random')
 
 
@@ -1190,9 +1271,13 @@ def replay_one(ctx, rep, signature=None):
         if why:
             ctx.fail(signature or 'C18:generate_segmented_cylinder:tiling', why, rep)
     elif kind == 'attached':
-        bad = attached_play([tuple(x) for x in rep['spec']], [tuple(o) for o in rep['ops']])
+        bad = attached_play([tuple(x) for x in rep['spec']], tuple(rep.get('init', [0])), [tuple(o) for o in rep['ops']])
         if bad is not None:
-            ctx.fail(signature or 'C18:Laser:attached->segments-do-not-tile-current-profile', bad[1], rep)
+            ctx.fail(signature or 'C18:Laser:attached->%s' % bad[1], bad[2], rep)
+    elif kind == 'geometry_identity':
+        pr = construct(rep['cls'], rep['args'])
+        if set(map(id, pr.generate_geometry())) & set(map(id, pr.generate_geometry())):
+            ctx.fail(signature or 'C18:generate_geometry:returns-the-same-primitive-objects-twice', 'same Cylinder objects returned twice', rep)
     elif kind == 'spectrum_bins':
         pass        # covered by the seeded stream; parameters are in the replay for manual inspection
     return 'still fails' if len(ctx.failing) + len(ctx.known_hits) > n0 else 'passes now'
